@@ -181,6 +181,17 @@ def plan(thorough):
     add("curve-secp256k1", leaf(r, "k1", "secp256k1"))
     add("curve-explicit", leaf(r, "expl", "p256explicit"))
     add("rsa1024", leaf(rr, "r1024", "rsa1024"))
+    # the RSA minimum is a bit count of the modulus: just below (2047, 2041: same octet count as 2048; 2040: one octet fewer) and controls
+    add("rsa2047", leaf(rr, "r2047", "rsa2047"))
+    add("rsa2041", leaf(rr, "r2041", "rsa2041"))
+    add("rsa2040", leaf(rr, "r2040", "rsa2040"))
+    add("ok-rsa2056", leaf(rr, "r2056", "rsa2056"))
+    # curves just outside the accepted list
+    add("curve-secp224r1", leaf(r, "c224", "secp224r1"))
+    add("curve-brainpoolP256r1", leaf(r, "cbp256", "brainpoolP256r1"))
+    add("curve-brainpoolP384r1", leaf(r, "cbp384", "brainpoolP384r1"))
+    add("sig-ecdsa-sha224", leaf(r, "s224e", digest="sha224"))
+    add("sig-ecdsa-sha3", leaf(r, "s3e", digest="sha3-256"))
     base = leaf(r, "uidbase")
     add("uid-issuer", base, path=X.with_unique_ids(base, True, False))
     add("uid-subject", base, path=X.with_unique_ids(base, False, True))
